@@ -296,6 +296,24 @@ def quick_requests() -> list[Request]:
     return out
 
 
+def rotating_requests(seed: int, k: int = 16) -> list[Request]:
+    """k requests drawn from the thorough generator's space (shape x format product) by VERIF_SEED:
+    the quick tier sees a different slice of the request axis on every run."""
+    rng = random.Random(4242 + seed)
+    fixed = {r.key() for r in quick_requests()}
+    out = []
+    shapes = SHAPES_CORE + SHAPES_ORDER3[:6]
+    tries = 0
+    while len(out) < k and tries < 400:
+        tries += 1
+        shape = rng.choice(shapes)
+        r = sample_requests(shape, 1, rng)[0]
+        if r.key() in fixed or any(r.key() == o.key() for o in out):
+            continue
+        out.append(r)
+    return out
+
+
 def thorough_requests(seed: int, per_shape: int = 40, per_shape3: int = 16) -> list[Request]:
     rng = random.Random(1000 + seed)
     out = list(quick_requests())
